@@ -446,12 +446,15 @@ func exclusionMain(args []string) {
 		}
 	}
 	// invalid patterns: 'invalid' before anything is touched
-	for _, bad := range []string{"(", "a[", "*a", "a(?P<", "[z-a]"} {
+	// single uncompilable patterns, and SETS of uncompilable patterns whose defects would cancel out if the
+	// patterns were joined into one expression: every pattern is judged on its own
+	for _, badSet := range [][]string{{"a", "("}, {"a", "a["}, {"a", "*a"}, {"a", "a(?P<"}, {"a", "[z-a]"}, {"(a", "b)"}, {"a", "(b", "c)"}, {"[a", "b]"}, {"a\\"}} {
+		bad := strings.Join(badSet, " , ")
 		for _, backend := range []string{"mem", "os"} {
 			for _, op := range exOps {
 				env := newExEnv(backend, []exEntry{{"a", true}, {"a/b", false}, {"y", false}})
 				before := strings.Join(env.listAll(""), ",")
-				_, err := runExOp(env, op, []string{"a", bad})
+				_, err := runExOp(env, op, badSet)
 				muts := 0
 				for _, ro := range env.rec.snapshotOps() {
 					if ro.Mutating {
